@@ -18,6 +18,10 @@ MANIFEST = dict(
     tech="Lean 4 proof over hand-written model + differential correspondence (in-process C harness)",
     ref="6/C15")
 
+import collections
+DEVIATION = collections.Counter()
+DEVIATION_SAMPLES = []
+
 HARNESS = "h_range"
 MODEL = "range"
 NOW = 1790000000          # 2026-09-21, the clock the harness is given by default
@@ -292,7 +296,9 @@ def oracle_rng(t, out):
         if sat:
             return "416 although a requested range is satisfiable [%d-%d]" % sat[0]
         if maybe:
-            return None           # only clamped numbers: documented deviation
+            DEVIATION["clamped-416"] += 1   # only clamped numbers: documented deviation
+            if len(DEVIATION_SAMPLES) < 3:
+                DEVIATION_SAMPLES.append("%r on %d bytes -> 416" % (rg, n))
         return None
     # 206
     if not sat and not maybe:
@@ -939,6 +945,10 @@ def run(ctx):
     ctx.differential("date(http_date_time_to_str)", [exe], MODEL, fmt, oracle, classify)
     ctx.differential("date(parse three formats, if-modified-since)", [exe], MODEL, parse, oracle, classify)
     ctx.differential("libc(gmtime_r/timegm vs civil-date model)", [exe], MODEL, misc, oracle, classify)
+    if DEVIATION["clamped-416"]:
+        ctx.notes.append("documented deviation from RFC 9110 14.1.2 observed %d times (not counted as a violation): "
+                         "a satisfiable first-pos with last-pos >= 2^63-1 (or suffix-length >= 2^63) is answered 416, "
+                         "e.g. %s" % (DEVIATION["clamped-416"], "; ".join(DEVIATION_SAMPLES)))
     ctx.exhaustive = False
     ctx.rule = ("cases: Range headers generated from the RFC 9110 byte-range grammar with boundary numbers x "
                 "representation lengths x chunk layouts (mem/file/mixed) x request preconditions; validator "
